@@ -21,9 +21,10 @@ MANIFEST = {
             "source-derived stage list: C16_stage_in_source), C16_model_first_appearance (states/events/actions/guards/signatures of the engine's "
             "table model = first-appearance lists of the table), C16_replace_segmentwise, C16_outside_unchanged, C16_letter. The real output is "
             "compared with ref16 (extracted) on every generated template accepted by in_grammar16/wf16, and ref16 with an independent Python reference.",
-    "note": "PARTIAL: the composition of all stages and phases over a whole template (engine16 = ref16) and the nested per-state/per-event/"
-            "per-transition blocks (alternative text) are not proved; they are modelled, tied by differential execution and observed against the "
-            "references. signature/member/documentation/attribute tags are not modelled. Values substituted must not contain '<' '>' (checked per case).",
+    "note": "C16_engine_is_ref / C16_engine_is_ref_table: the whole pipeline (15 stages in source order, then user tags / FOR / write) on every "
+            "template of in_grammar16 with any number of blocks of any kinds equals ref16. PARTIAL: the nested per-state/per-event/"
+            "per-transition blocks (alternative text) are not in the Coq template syntax; they are modelled, tied by differential execution and "
+            "observed against the Python reference. signature/member/documentation/attribute tags are not modelled. Values substituted must not contain '<' '>' (checked per case).",
 }
 RULE = ("probe templates: 1-5 sections out of {plain text with blank runs and TABs, PER_STATE/EVENT/ACTION/GUARD/STRUCT/MSG/PROTOMSG block with "
         "1-3 body lines using the name tag of the block in its three case variants plus NUM/ALPH, PER_ACTION_SIGNATURE block, nested "
@@ -195,9 +196,11 @@ def render_section(sec):
         return list(sec[1])
     if kind == "elem":
         b = BLOCK[sec[1]]
-        return ["<<<%s_BEGIN>>>\n" % b] + [line_text(l) for l in sec[2]] + ["<<<%s_END>>>\n" % b]
+        ib, ie = sec[3] if len(sec) > 3 else ("", "")
+        return [ib + "<<<%s_BEGIN>>>\n" % b] + [line_text(l) for l in sec[2]] + [ie + "<<<%s_END>>>\n" % b]
     if kind == "sig":
-        return ["<<<PER_ACTION_SIGNATURE_BEGIN>>>\n"] + [line_text(l) for l in sec[1]] + ["<<<PER_ACTION_SIGNATURE_END>>>\n"]
+        ib, ie = sec[2] if len(sec) > 2 else ("", "")
+        return [ib + "<<<PER_ACTION_SIGNATURE_BEGIN>>>\n"] + [line_text(l) for l in sec[1]] + [ie + "<<<PER_ACTION_SIGNATURE_END>>>\n"]
     _k, s_pre, e_pre, g_body, e_post, s_post = sec
     return (["<<<PER_STATETRANSITION_BEGIN>>>\n"] + s_pre + ["<<<PER_EVENTTRANSITION_BEGIN>>>\n"] + e_pre + ["<<<PER_GUARDTRANSITION_BEGIN>>>\n"]
             + g_body + ["<<<PER_GUARDTRANSITION_END>>>\n"] + e_post + ["<<<PER_EVENTTRANSITION_END>>>\n"] + s_post + ["<<<PER_STATETRANSITION_END>>>\n"])
@@ -247,9 +250,10 @@ def section(rng):
         return ("plain", [rng.choice(TEXT) + "\n" for _ in range(rng.randint(1, 4))])
     if r < 0.7:
         fam = rng.choice(["STATE", "EVENT", "ACTION", "GUARD", "STRUCT", "MSG", "PROTOMSG"])
-        return ("elem", fam, [body_line(rng, fam) if rng.random() < 0.85 else [["L", "    literal;"]] for _ in range(rng.randint(1, 3))])
+        return ("elem", fam, [body_line(rng, fam) if rng.random() < 0.85 else [["L", "    literal;"]] for _ in range(rng.randint(1, 3))],
+                (rng.choice(["", "    ", "\t", "  // "]), rng.choice(["", "        "])))
     if r < 0.8:
-        return ("sig", [body_line(rng, rng.choice(["ACTION", "EVENT"])) for _ in range(rng.randint(1, 2))])
+        return ("sig", [body_line(rng, rng.choice(["ACTION", "EVENT"])) for _ in range(rng.randint(1, 2))], (rng.choice(["", "    "]), rng.choice(["", "  "])))
     return ("trans", [line_text(body_line(rng, "STATE", False)) for _ in range(rng.randint(0, 1))],
             [line_text(body_line(rng, "EVENT", False)) for _ in range(rng.randint(0, 1))],
             [trans_line(rng) for _ in range(rng.randint(1, 4))],
@@ -290,9 +294,11 @@ def wire16(secs):
         if sec[0] == "plain":
             t += [["X", l[:-1]] for l in sec[1]]
         elif sec[0] == "elem":
-            t.append(["B", sec[1], [l for l in sec[2]]])
+            ib, ie = sec[3] if len(sec) > 3 else ("", "")
+            t.append(["B", sec[1], ib, ie, [l for l in sec[2]]])
         elif sec[0] == "sig":
-            t.append(["S", [l for l in sec[1]]])
+            ib, ie = sec[2] if len(sec) > 2 else ("", "")
+            t.append(["S", ib, ie, [l for l in sec[1]]])
         else:
             return None
     return t
